@@ -247,7 +247,7 @@ def parseReq (toks : List String) : Option Req :=
   match toks with
   | k :: pd :: la :: ll :: hl :: orj :: m :: ct :: rest =>
     match parseAccept rest with
-    | some (acc, pv :: ss :: le :: lim :: len :: dl :: rf :: mm :: mn :: rest2) =>
+    | some (acc, pv :: ss :: ns :: le :: lim :: len :: dl :: rf :: mm :: mn :: rest2) =>
       match parseHdrs rest2 with
       | some (hdrs, body) =>
         let kind : Option HKind := if k == "Ksl" then some .stateless else if k == "Ksf" then some .stateful else if k == "Ksse" then some .sse else none
@@ -260,7 +260,7 @@ def parseReq (toks : List String) : Option Req :=
           | _ => none
         -- `dl<n>`: the declared Content-Length, `dl-1` = none (chunked); `rf1`: the body reader ends with an error
         let declared : Option (Option Nat) :=
-          if !dl.startsWith "dl" || !(rf == "rf0" || rf == "rf1") then none
+          if !dl.startsWith "dl" || !(rf == "rf0" || rf == "rf1") || !(ns == "ns0" || ns == "ns1") then none
           else match (tailN 2 dl).toInt? with
             | some d => if d < 0 then some none else some (some d.toNat)
             | none => none
@@ -271,7 +271,7 @@ def parseReq (toks : List String) : Option Req :=
         | some kind, some meth, some sess, some content, some ct, some pv, some lim, some len, some mm, some mn =>
           some { kind := kind, protectionDisabled := pd == "pd1", hasLocalAddr := la == "la1", listenerLoopback := ll == "ll1",
                  hostLoopback := hl == "hl1", originRejects := orj == "or1", method := meth, baseMedia := ct, accept := acc,
-                 version := pv, sess := sess, lastEventId := le == "le1", limit := lim, bodyLen := len,
+                 version := pv, sess := sess, noSessionIds := ns == "ns1", lastEventId := le == "le1", limit := lim, bodyLen := len,
                  declared := declared, readFails := rf == "rf1", content := content,
                  mcpMethod := mm, mcpName := mn, paramHdrs := hdrs }
         | _, _, _, _, _, _, _, _, _, _ => none
@@ -475,6 +475,9 @@ def httpMonitor (r : Req) (o : HttpObs) : Option String :=
       else some s!"C12: violation_status: request meeting every precondition refused with {o.status}/{optInt o.code}"
     | _ =>
       if viol.any (fun p => p.2.contains (o.status, o.code)) then none
+      else if o.status == 400 && o.code == none && r.kind == .stateful && r.noSessionIds && r.sess == .none &&
+          viol.any (fun p => p.2 == [(413, none)]) then
+        some "C12: preflight-F30 oversize body on a stateful handler without session ids: answered 400 instead of 413"
       else some s!"C12: violation_status: status {o.status}/{optInt o.code} is not mandated by any violated precondition"
 
 /-! ### the engine -/
